@@ -186,6 +186,24 @@ class CCodeMapper(SimplifyingSortingStringifyMapper):
                     self.rec(expr.numerator, PREC_PRODUCT),
                     self.rec(expr.denominator, PREC_POWER))  # analogous to ^{-1}
 
+    def map_comparison(self, expr, enclosing_prec):
+        from pymbolic.mapper.stringifier import PREC_COMPARISON
+        from pymbolic.primitives import Comparison
+
+        # An operand that is itself a comparison needs parentheses:
+        # 'a != -2 >= b' is 'a != (-2 >= b)' in C, and 'a < b < c'
+        # is '(a < b) < c' no matter how the tree is nested.
+        return self.parenthesize_if_needed(
+                self.format("%s %s %s",
+                    self.rec_with_force_parens_around(
+                        expr.left, PREC_COMPARISON,
+                        force_parens_around=(Comparison,)),
+                    expr.operator,
+                    self.rec_with_force_parens_around(
+                        expr.right, PREC_COMPARISON,
+                        force_parens_around=(Comparison,))),
+                enclosing_prec, PREC_COMPARISON)
+
     def map_logical_not(self, expr, enclosing_prec):
         return self.parenthesize_if_needed(
                 "!" + self.rec(expr.child, PREC_UNARY),
